@@ -149,15 +149,18 @@ RET_TYPES = ["String", "u64", "QResp", "bool", "Vec<u32>"]
 
 
 class Arg:
-    def __init__(self, name, ty, default=None):
+    def __init__(self, name, ty, default=None, rename=None):
         self.name = name
         self.ty = ty
-        self.wire = name[2:] if name.startswith("r#") else name
+        self.wire = rename or (name[2:] if name.startswith("r#") else name)
+        self.rename = rename  # a second forwarded attribute: #[serde(rename = "..")]
         # (rust fn path, JSON text of its value) of a forwarded #[serde(default = "..")]
         self.default = default
 
     def decl(self, ty=None):
         attr = '#[serde(default = "%s")] ' % self.default[0] if self.default else ""
+        if self.rename:
+            attr += '#[serde(rename = "%s")] ' % self.rename
         return "%s%s: %s" % (attr, self.name, ty or self.ty)
 
 
@@ -193,9 +196,9 @@ class Handler:
 
 
 class Iface:
-    def __init__(self, mod, handlers, assoc=(), custom=None):
-        self.mod = mod  # module name; trait = UpperCamel
-        self.trait = cc_upper_camel(mod)
+    def __init__(self, mod, handlers, assoc=(), custom=None, trait=None):
+        self.mod = mod  # module name (may be a path below `ifaces`); trait = UpperCamel unless given
+        self.trait = trait or cc_upper_camel(mod)
         self.handlers = handlers
         self.assoc = list(assoc)  # subset of ["ExecC", "QueryC", "T"]
         self.custom = custom  # None or (msg_ty, query_ty) given in #[sv::custom]
@@ -365,6 +368,8 @@ def ret_expr(h, hid):
         return "hash64(&%s) %% 2 == 0" % key
     if h.ret == "Vec<u32>":
         return "vec![(hash64(&%s) %% 1000) as u32, %d]" % (key, len(h.args))
+    if h.ret == "u128":
+        return "hash64(&%s) as u128 * 1_000_003u128" % key
     if h.ret == "Option<u32>":
         return "if hash64(&%s) %% 2 == 0 { None } else { Some((hash64(&%s) %% 1000) as u32) }" % (key, key)
     if h.ret == "Binary":
@@ -379,6 +384,9 @@ def ret_expr(h, hid):
 BRANCH = [True]  # cleared while a contract with the deprecated context types is printed
 
 
+NOTOUCH = [False]  # set while a contract is printed whose instantiate handler writes nothing
+
+
 def body_mut(h, glue, hid, with_info):
     info = "Some(&ctx.info)" if with_info else "None"
     script = "&script" if any(a.name == "script" for a in h.args) else "&Script::default()"
@@ -391,11 +399,11 @@ def body_mut(h, glue, hid, with_info):
     return """{
         %slet __c = ctx_echo(ctx.deps.as_ref(), &ctx.env, %s);
         bb::enter(<%s as Glue>::CID, "%s", %s, __c);
-        bb::touch(ctx.deps.storage);
+        %s
         let __r = script::run::<%s>(ctx.deps, &ctx.env, %s);
         bb::exit(<%s as Glue>::CID, "%s", script::exit_value(&__r, <%s as Glue>::describe));
         __r
-    }""" % (branch, info, glue, hid, json_args(h.args), glue, script, glue, hid, glue)
+    }""" % (branch, info, glue, hid, json_args(h.args), "" if (NOTOUCH[0] and h.kind == "instantiate") else "bb::touch(ctx.deps.storage);", glue, script, glue, hid, glue)
 
 
 def body_query(h, glue, hid):
@@ -451,7 +459,9 @@ def reply_params(h):
                 "Instantiate": "MsgInstantiateContractResponse",
                 "InstantiateOpt": "Option<MsgInstantiateContractResponse>",
             }[r.data]
-            params.append("#[sv::data(%s)] data: %s" % (attr, ty) if attr else "#[sv::data] data: %s" % ty)
+            # (another attribute may stand in front of the marker)
+            lint = "#[allow(unused_variables)] " if getattr(r, "lint_first", False) else ""
+            params.append(lint + ("#[sv::data(%s)] data: %s" % (attr, ty) if attr else "#[sv::data] data: %s" % ty))
             if r.data in ("Instantiate", "InstantiateOpt"):
                 # MsgInstantiateContractResponse is not Serialize; echo its fields
                 if r.data == "Instantiate":
@@ -618,7 +628,11 @@ def emit_glue_struct(name, cid, msg_ty, query_ty, err, reply_table=None, self_ty
 
 def emit_iface(i):
     lines = []
-    lines.append("pub mod %s {" % i.mod)
+    segs = i.mod.split("::")
+    for outer in segs[:-1]:
+        lines.append("pub mod %s {" % outer)
+        lines.append("    use super::*;")
+    lines.append("pub mod %s {" % segs[-1])
     lines.append("    use super::*;")
     lines.append("    #[interface]")
     if i.custom:
@@ -647,6 +661,8 @@ def emit_iface(i):
             )
     lines.append("    }")
     lines.append("}")
+    for _ in segs[:-1]:
+        lines.append("}")
     return "\n".join(lines)
 
 
@@ -669,11 +685,13 @@ def reply_table(c):
 def emit_contract(c, iface_path):
     STATEFUL[0] = c.stateful
     BRANCH[0] = not c.legacy_ctx
+    NOTOUCH[0] = "notouch" in c.tags
     try:
         return emit_contract_inner(c, iface_path)
     finally:
         STATEFUL[0] = False
         BRANCH[0] = True
+        NOTOUCH[0] = False
 
 
 def emit_contract_inner(c, iface_path):
@@ -1240,7 +1258,7 @@ def emit_dyn_peer(family, i, t, chain, iface_path):
             exec_arms.append('"%s:%s" => { use %s::%s::sv::Executor as _; b.%s? }' % (i.trait, h.fn, iface_path, i.mod, call))
         elif h.kind == "query":
             query_arms.append('"%s:%s" => { use %s::%s::sv::Querier as _; sylvia::cw_std::to_json_binary(&b.%s?)? }' % (i.trait, h.fn, iface_path, i.mod, call))
-    name = "dynpeer_%s_%s%s" % (i.mod, "".join(ch for ch in (t or "") if ch.isalnum()).lower(), "_c" if chain else "")
+    name = "dynpeer_%s_%s%s" % (i.mod.replace("::", "_"), "".join(ch for ch in (t or "") if ch.isalnum()).lower(), "_c" if chain else "")
     key = "dyn:%s::%s%s%s" % (family, i.mod, "<%s>" % t if "T" in i.assoc else "", "@c" if chain else "")
     out = []
     out.append("pub mod %s {" % name)
@@ -1526,6 +1544,7 @@ def family_f3(rng):
             nm = "d%d" % k
             pay = [PAY_RAW, PAY_ONE, PAY_THREE][(k + variant) % 3]
             ok = Handler("reply", nm + "_ok", reply=Reply([nm], "success", data=mode, data_ty=ty, **pay))
+            ok.reply.lint_first = variant == 1 and mode != "Unmarked"
             if variant == 0:
                 methods.append(ok)
             elif variant == 1:
@@ -1595,6 +1614,7 @@ def family_f3(rng):
                 Handler("reply", "transfer", reply=Reply([], "success", **PAY_ONE)),
                 Handler("reply", "swap", reply=Reply([], "success", **PAY_ONE)),
                 Handler("reply", "zst", reply=Reply([], "always", payload=[Arg("nil", "Nil")])),
+                Handler("reply", "nested", reply=Reply([], "always", payload=[Arg("vv", "Vec<Vec<u32>>")])),
             ],
             err="std",
         )
@@ -1869,7 +1889,7 @@ def family_f1(rng):
             "f1",
             std_handlers(rng, extra=[Handler("exec", "big", [Arg("amount", "u128"), Arg("delta", "i128")]), Handler("query", "big_q", [Arg("amount", "u128")], ret="String"), Handler("sudo", "big_s", [Arg("delta", "i128")])]),
             err="own",
-            tags=("dispatch", "int128"),
+            tags=("dispatch", "int128", "proxy"),
         )
     )
     # seeded random programs: random handler sets over the closed type set
@@ -2058,6 +2078,52 @@ def family_f1(rng):
             tags=("dispatch", "regular", "bridged_empty"),
         )
     )
+    # handlers and results at the edges: an exec method without any parameter whose name holds a
+    # digit, a query called like an accessor of the helper itself, a renamed parameter behind
+    # another forwarded attribute, 128 bit results through an interface
+    bigq = Iface("bigq", [Handler("query", "big_total", ret="u128"), Handler("query", "big_of", [Arg("who", "String")], ret="u128")])
+    lib["bigq"] = bigq
+    cs.append(
+        Contract(
+            "pedge",
+            "f1",
+            std_handlers(
+                rng,
+                extra=[
+                    Handler("exec", "mint_v2", script=False),
+                    Handler("exec", "claim2", script=False),
+                    Handler("query", "code_id", ret="u64"),
+                    Handler("exec", "send_to", [Arg("target", "Option<u32>", default=("rt::types::some7", "7"), rename="tgt"), Arg("n", "u32")]),
+                    Handler("query", "sent_to", [Arg("target", "Option<u32>", default=("rt::types::some7", "7"), rename="tgt")], ret="String"),
+                ],
+            ),
+            uses=[Use(bigq)],
+            err="own",
+            tags=T + ("regular",),
+        )
+    )
+    # an instantiate handler that writes nothing, and no migrate handler
+    cs.append(
+        Contract(
+            "pnt",
+            "f1",
+            [
+                Handler("instantiate", "instantiate", [Arg("a", "u32")]),
+                Handler("exec", "go"),
+                Handler("query", "probe", [Arg("x", "u32")], ret="u64", failarg=True),
+                Handler("sudo", "nudge", [Arg("n", "u64")]),
+            ],
+            uses=[Use(lib["eps"])],
+            err="std",
+            tags=T + ("regular", "notouch"),
+        )
+    )
+    # two interfaces that live in modules of the same name below different parents
+    gate = Iface("first::ops", [Handler("exec", "open_gate", [Arg("n", "u32")]), Handler("query", "gate_state", ret="u64"), Handler("sudo", "gate_tick")], trait="Gate")
+    vault = Iface("second::ops", [Handler("exec", "fill_vault", [Arg("n", "u32")]), Handler("query", "vault_state", ret="u64"), Handler("sudo", "vault_tick")], trait="Vault")
+    lib["first::ops"] = gate
+    lib["second::ops"] = vault
+    cs.append(Contract("ptwo", "f1", std_handlers(rng), uses=[Use(gate, alias=True), Use(vault, alias=True)], err="own", tags=T + ("regular",)))
     # struct messages without any member
     cs.append(
         Contract(
